@@ -91,7 +91,8 @@ ASSUMPTIONS = [
 	"returning is not judged (inconclusive)",
 	"float-typed tables are judged for count_annotations (pinned by "
 	"tests/test_annotate.py); for pairwise_annotations(_spacing), whose "
-	"docstrings ask for integers, a raise on a float table is a refusal",
+	"docstrings ask for integers, a TypeError/ValueError on a float table is "
+	"a refusal",
 	"kmers on a sequence shorter than k: a raise is a refusal, a returned "
 	"value must be all zero",
 	"kmers scores: integers and multiples of 1/8 are compared exactly (all "
@@ -844,7 +845,8 @@ def case_pairwise(cls, params, cfg, rec):
 		else:
 			rec.inconclusive(cls, params, "too-small shape accepted")
 		return
-	if st == "raise" and cfg["in_dtype"].startswith("float"):
+	if st == "raise" and cfg["in_dtype"].startswith("float") and isinstance(
+		val, (TypeError, ValueError)):
 		rec.refusal(cls, params, "float table: " + type(val).__name__)
 		return
 	bad = judge_pairwise(cfg, rows, st, val)
@@ -994,7 +996,10 @@ def case_spacing(cls, params, cfg, rec):
 		else:
 			rec.inconclusive(cls, params, "too-small shape accepted")
 		return
-	if st == "raise" and cfg["in_dtype"].startswith("float"):
+	float_input = cfg["in_dtype"].startswith("float") and cfg["form"] not in (
+		"dataframe", "dataframe_int32", "tuple_df_tensorcol")
+	if st == "raise" and float_input and isinstance(val, (TypeError,
+		ValueError)):
 		rec.refusal(cls, params, "float table: " + type(val).__name__)
 		return
 	stats, obs = {}, []
